@@ -227,3 +227,169 @@ class StatMonitor(Monitor):
                     self.report('recv-counter', 'received %s: endpoint says %s, delivered stream has %s (after %s)'
                                 % (k, stat['receive'].get(k), recv[k], ev), ['type:' + k, 'dir:' + (
                                     'over' if (stat['receive'].get(k) or 0) > recv[k] else 'under')])
+
+
+class ProfileMonitor(Monitor):
+    """C01: lock-step comparison with the reference session profile (vlib/fsm_profile.py)."""
+
+    def __init__(self, w):
+        from . import fsm_profile
+        from .world import CONF
+        Monitor.__init__(self, w)
+        self.fp = fsm_profile
+        self.m = fsm_profile.Model(hold=CONF.time.hold_time, idle_hold=CONF.time.idle_hold_time,
+                                   connect_retry=CONF.time.connect_retry_time, boot=CONF.time.bgp_peer_call_later_time,
+                                   remote_as=w.remote_as)
+        self.pairs = set()
+        self.notifs = set()
+        self.steps = 0
+        self.dead = False
+        self.order_forks = 0
+        self.ntrace = 0
+
+    def extra(self):
+        return self.m.key()
+
+    def before(self, ev):
+        self.ntrace = len(reactor.trace)
+        self.pre_state = self.m.st + ('/stopped' if self.m.stopped else '')
+
+    def observed(self):
+        w_, closed, att = [], False, 0
+        for e in reactor.trace[self.ntrace:]:
+            if e[1] == 'write':
+                for f in wire.frames_of_writes([(e[0], e[3])]):
+                    w_.append(wire.summarize(f) if f[1] in (1, 2, 3, 4, 5, 128) else ('garbage',))
+            elif e[1] in ('lose', 'abort'):
+                closed = True
+            elif e[1] == 'connect':
+                att += 1
+        return w_, closed, att
+
+    def after(self, ev, info):
+        if self.dead:
+            return 'CUT'
+        name, idx, script = parse_event(ev)
+        w = self.w
+        if w.live_count() > 1:
+            return 'CUT'          # outside the single-connection regime: left to C12
+        if info['applied'] is False:
+            return
+        m = self.m
+        got = self.observed()
+        for x in got[0]:
+            if x[0] == 3:
+                self.notifs.add((x[1], x[2]))
+        if name == 'TICK' or name.startswith('ADV'):
+            res = m.time_alts(w.now())
+            if len(res) > 1:
+                self.order_forks += 1
+            alts = [self.fp.Alt(r[0], r[1], r[2], (lambda s=r[3]: m.restore(s)), 'timers') for r in res]
+            evkind = 'TICK'
+        else:
+            m.now = w.now()
+            if name == 'ACCEPT':
+                alts = m.ev_accept() if m.attempt else None
+            elif name == 'REFUSE':
+                alts = m.ev_refuse() if m.attempt else None
+            elif name in ('PEERCLOSE', 'PEERRESET'):
+                alts = m.ev_peerclose() if m.conn else None
+            elif name == 'STOP':
+                alts = m.ev_stop()
+            elif name == 'START':
+                alts = m.ev_start()
+            elif name in MSGS:
+                alts = m.ev_msg(MSGS[name][1]) if m.conn else None
+            else:
+                return
+            evkind = name
+            if alts is None:
+                self.dead = True
+                self.report('model-desync', 'event %s applied by the environment but the model has no %s (model %s, impl %s)'
+                            % (ev, 'attempt' if name in ('ACCEPT', 'REFUSE') else 'connection', m.st, w.state_direct()),
+                            ['state:' + self.pre_state, 'event:' + evkind])
+                return 'CUT'
+        self.pairs.add((self.pre_state, evkind))
+        self.steps += 1
+        hit = None
+        for a in alts:
+            if a.matches(*got):
+                hit = a
+                break
+        feats = ['state:' + self.pre_state, 'event:' + evkind]
+        if hit is None:
+            self.dead = True
+            self.report('fsm-deviation', 'in %s on %s: allowed %s ; observed writes=%s close=%s connects=%d (impl state %s)'
+                        % (self.pre_state, ev, ' | '.join(repr(a) for a in alts[:6]), got[0], got[1], got[2], w.state_direct()), feats)
+            return 'CUT'
+        hit.apply()
+        rs = w.rest_state()
+        if rs != m.st:
+            self.dead = True
+            self.report('state-deviation', 'in %s on %s (%s): reported state %s, profile says %s'
+                        % (self.pre_state, ev, hit.name, rs, m.st), feats + ['reported:' + str(rs), 'expected:' + m.st])
+            return 'CUT'
+        mlive = 1 if (m.attempt or m.conn) else 0
+        if mlive != w.live_count():
+            self.dead = True
+            self.report('connection-deviation', 'in %s on %s: profile has %d live connection/attempt, implementation %d'
+                        % (self.pre_state, ev, mlive, w.live_count()), feats)
+            return 'CUT'
+
+
+class EstabMonitor(Monitor):
+    """C01: ESTABLISHED is reported only after, on the current connection, agent OPEN, valid peer OPEN,
+    agent KEEPALIVE, peer KEEPALIVE (a trace automaton over the tap, independent of the profile table)."""
+
+    def __init__(self, w):
+        Monitor.__init__(self, w)
+        self.checked = 0
+
+    def after(self, ev, info):
+        w = self.w
+        if w.state_direct() != 'ESTABLISHED' and w.rest_state() != 'ESTABLISHED':
+            return
+        self.checked += 1
+        tr = w.tracked_transport()
+        ok = False
+        why = 'no tracked connection'
+        if tr is not None and tr.connected:
+            evs = [(t, 'out', f[1], f[2]) for (t, f) in [(x[0], x) for x in wire.frames_of_writes(tr.written)]]
+            items, _ = wire.deframe(b''.join(d for _, d in tr.delivered))
+            # interleave by order of occurrence: writes carry timestamps, deliveries too; rebuild from the reactor trace
+            seq = []
+            cid = tr.connector.cid
+            nin = 0
+            frames_in = [it for it in items if it[0] == 'frame']
+            for e in reactor.trace:
+                if e[1] == 'write' and e[2] == cid:
+                    for f in wire.frames_of_writes([(e[0], e[3])]):
+                        seq.append(('out', f[1], f[2]))
+                elif e[1] == 'deliver' and e[2] == cid:
+                    seq.append(('in-chunk',))
+            # deliveries: one frame per chunk in these workloads; map chunks to frames in order
+            k = 0
+            seq2 = []
+            for s in seq:
+                if s[0] == 'in-chunk':
+                    if k < len(frames_in):
+                        seq2.append(('in', frames_in[k][1], frames_in[k][2]))
+                        k += 1
+                else:
+                    seq2.append(s)
+            stage = 0
+            for s in seq2:
+                if stage == 0 and s[0] == 'out' and s[1] == 1:
+                    stage = 1
+                elif stage == 1 and s[0] == 'in' and s[1] == 1:
+                    o = wire.parse_open(s[2])
+                    if o and o['version'] == 4 and o['hold'] not in (1, 2) and (o['as4'] if o['as4'] is not None else o['asn']) == w.remote_as:
+                        stage = 2
+                elif stage == 2 and s[0] == 'out' and s[1] == 4:
+                    stage = 3
+                elif stage == 3 and s[0] == 'in' and s[1] == 4:
+                    stage = 4
+            ok = stage == 4
+            why = 'handshake on the current connection reached stage %d of 4 (agent OPEN, valid peer OPEN, agent KEEPALIVE, peer KEEPALIVE)' % stage
+        if not ok:
+            self.report('established-without-handshake', 'ESTABLISHED reported after %s but %s' % (ev, why), [])
